@@ -228,15 +228,24 @@ fn do_repro_louv(g: &Arc<G>, t: &mut Toks, o: &mut Out) {
     }
     let mut outs_p: Vec<(Option<Levels>, i64)> = vec![];
     let mut outs_c: Vec<(Option<Vec<Vec<i64>>>, i64)> = vec![];
+    // a call that does not return is reported once; repeating it would only add spinning threads
+    let stuck = |p: &(Option<Levels>, i64), c: &(Option<Vec<Vec<i64>>>, i64)| {
+        p.1 == HANG || p.1 == SKIPPED || c.1 == HANG || c.1 == SKIPPED
+    };
     for _ in 0..REPEAT {
         outs_p.push(call_partitions(g, weighted, res, thr, seed));
         outs_c.push(call_communities(g, weighted, res, thr, seed));
+        if stuck(outs_p.last().unwrap(), outs_c.last().unwrap()) {
+            break;
+        }
     }
-    for k in POOLS {
-        let g2 = g.clone();
-        outs_p.push(in_pool(k, move || call_partitions(&g2, weighted, res, thr, seed)));
-        let g3 = g.clone();
-        outs_c.push(in_pool(k, move || call_communities(&g3, weighted, res, thr, seed)));
+    if !stuck(outs_p.last().unwrap(), outs_c.last().unwrap()) {
+        for k in POOLS {
+            let g2 = g.clone();
+            outs_p.push(in_pool(k, move || call_partitions(&g2, weighted, res, thr, seed)));
+            let g3 = g.clone();
+            outs_c.push(in_pool(k, move || call_communities(&g3, weighted, res, thr, seed)));
+        }
     }
     let mut dp = outs_p.clone();
     dp.sort();
